@@ -1,6 +1,8 @@
 /-
 C03 — trigger predicates of the KNOWN escapes (findings F03b, F03e, F03g, F03h, F03i, F03j, F03k of
-findings/C03.json).  Core Lean only; evaluated by the driver (`X` request) so that the harness tags a
+findings/C03.json).  The table was audited on the reference tree: every row has a witness input in findings/C03.json that
+reproduces it, and the symbol lists are pruned to symbols observed with that escape.
+Core Lean only; evaluated by the driver (`X` request) so that the harness tags a
 disagreement with a finding id only when this predicate holds for the failing call.
 
 An escape is keyed on the CALL SITE — exception class + innermost `elementpath` frame
@@ -19,99 +21,41 @@ structure Row where
   minToks : Nat
   deriving Repr
 
-def cmpOps : List String := ["<", ">", "<=", ">=", "=", "!=", "lt", "gt", "le", "ge", "eq", "ne"]
-def durTypes : List String := ["dayTimeDuration", "yearMonthDuration", "duration"]
-def dateFns : List String :=
-  ["year-from-date", "month-from-date", "day-from-date", "timezone-from-date", "year-from-dateTime",
-   "month-from-dateTime", "day-from-dateTime", "hours-from-dateTime", "minutes-from-dateTime",
-   "seconds-from-dateTime", "timezone-from-dateTime", "hours-from-time", "minutes-from-time",
-   "seconds-from-time", "timezone-from-time"]
-def durFns : List String :=
-  ["years-from-duration", "months-from-duration", "days-from-duration", "hours-from-duration",
-   "minutes-from-duration", "seconds-from-duration"]
-def collationFns : List String :=
-  ["compare", "contains", "starts-with", "ends-with", "substring-before", "substring-after", "index-of",
-   "distinct-values", "deep-equal", "max", "min", "sort", "contains-token", "collation-key"]
-
-/-- tokens that produce a function item, a map or an array (`#` named function reference, inline
-`function`, `map`/`array` constructors, the harness variables `$fn1 $map1 $arr1`) -/
-def fnItemSyms : List String := ["#", "function", "fn1", "map", "map1", "array", "arr1"]
-
 def rows : List Row := [
   -- F03b: a sequence-type token used as an operand: XPathToken.evaluate and .select call each other
   ⟨"F03b", "RecursionError", "*", ["empty-sequence"], 0⟩,
   -- F03e: no depth guard in the recursive-descent parser / evaluator
   ⟨"F03e", "RecursionError", "*", [], 150⟩,
   -- F03g: an operand of an unexpected item type (or lexical form) reaches Python code unchecked
-  ⟨"F03g", "AssertionError", "compare.py:deep_equal", ["deep-equal"], 0⟩,
   ⟨"F03g", "AssertionError", "xpath1/_xpath1_functions.py:evaluate__ceiling_and_floor_functions", ["floor", "ceiling"], 0⟩,
   ⟨"F03g", "AssertionError", "xpath1/_xpath1_functions.py:evaluate__round", ["round"], 0⟩,
   ⟨"F03g", "AssertionError", "xpath30/_xpath30_functions.py:__call__", ["function"], 0⟩,
   ⟨"F03g", "AssertionError", "xpath31/_xpath31_functions.py:evaluate__map_merge", ["merge"], 0⟩,
   ⟨"F03g", "AssertionError", "xpath_tokens/tokens.py:nud", ["Q{"], 0⟩,
-  ⟨"F03g", "AttributeError", "collations.py:__init__", collationFns, 0⟩,
-  ⟨"F03g", "TypeError", "collations.py:__init__", collationFns, 0⟩,
-  ⟨"F03g", "AttributeError", "xpath2/_xpath2_functions.py:evaluate__from_date_functions", dateFns, 0⟩,
-  ⟨"F03g", "ValueError", "xpath2/_xpath2_functions.py:evaluate__from_date_functions", dateFns, 0⟩,
-  ⟨"F03g", "AttributeError", "xpath2/_xpath2_functions.py:evaluate__months_from_duration", durFns, 0⟩,
-  ⟨"F03g", "TypeError", "xpath2/_xpath2_functions.py:evaluate__years_from_duration", durFns, 0⟩,
+  ⟨"F03g", "AttributeError", "collations.py:__init__", ["compare"], 0⟩,
+  ⟨"F03g", "TypeError", "xpath2/_xpath2_functions.py:evaluate__years_from_duration", ["years-from-duration"], 0⟩,
   ⟨"F03g", "AttributeError", "xpath_tokens/tokens.py:led", ["NOTATION"], 0⟩,
   ⟨"F03g", "IndexError", "xpath_tokens/base.py:get_results", ["array"], 0⟩,
-  ⟨"F03g", "InvalidOperation", "datatypes/untyped.py:_operator", cmpOps ++ ["index-of", "distinct-values"], 0⟩,
-  ⟨"F03g", "IndexError", "xpath_tokens/functions.py:validated_result", ["for-each", "filter", "fold-left", "fold-right", "for-each-pair", "sort", "apply"], 0⟩,
-  ⟨"F03g", "AssertionError", "xpath1/xpath1_parser.py:parse_occurrence", ["instance", "treat", "cast", "castable", "as"], 0⟩,
-  ⟨"F03g", "KeyError", "xpath_tokens/base.py:cast_to_primitive_type", ["avg", "sum", "min", "max"], 0⟩,
   ⟨"F03g", "TypeError", "datatypes/uri.py:__init__", ["uri-collection"], 0⟩,
-  ⟨"F03g", "TypeError", "serialization.py:serialize_to_xml", ["serialize"], 0⟩,
   ⟨"F03g", "TypeError", "xpath30/_xpath30_functions.py:evaluate__atan2", ["atan2"], 0⟩,
   ⟨"F03g", "TypeError", "xpath30/xpath30_helpers.py:int_to_alphabetic", ["format-integer"], 0⟩,
-  ⟨"F03g", "TypeError", "xpath31/_xpath31_functions.py:evaluate__parse_json_functions", ["json-doc", "parse-json"], 0⟩,
-  ⟨"F03g", "ValueError", "datatypes/qname.py:__init__", ["function-name", "index-of", "distinct-values", "#"], 0⟩,
-  -- an ElementPathKeyError WITHOUT an error code (unknown type name in element(*, T) / attribute(*, T))
-  ⟨"F03g", "ElementPathKeyError", "sequence_types.py:is_instance", ["element", "attribute"], 0⟩,
+  ⟨"F03g", "ValueError", "datatypes/qname.py:__init__", ["function-name", "#"], 0⟩,
+  ⟨"F03g", "ElementPathKeyError", "sequence_types.py:is_instance", ["element"], 0⟩,
   ⟨"F03g", "ValueError", "datatypes/untyped.py:__int__", ["untypedAtomic"], 0⟩,
-  ⟨"F03g", "ValueError", "helpers.py:get_double", ["floor", "ceiling", "round", "distinct-values", "index-of", "untypedAtomic", "substring", "subsequence"], 0⟩,
-  ⟨"F03g", "ValueError", "datatypes/binary.py:validate", ["index-of", "distinct-values"], 0⟩,
-  ⟨"F03g", "ValueError", "datatypes/datetime.py:fromstring", ["index-of", "distinct-values"], 0⟩,
-  ⟨"F03g", "ValueError", "datatypes/numeric.py:__new__", ["index-of", "distinct-values"], 0⟩,
-  ⟨"F03g", "ValueError", "datatypes/untyped.py:_operator", cmpOps ++ ["index-of", "distinct-values"], 0⟩,
-  ⟨"F03g", "AssertionError", "xpath2/_xpath2_constructors.py:evaluate__datetime_stamp_type", ["dateTimeStamp"], 0⟩,
-  ⟨"F03g", "IndexError", "xpath30/xpath30_helpers.py:format_digits", ["format-integer"], 0⟩,
-  ⟨"F03g", "TypeError", "xpath30/xpath30_helpers.py:roman_num", ["format-integer"], 0⟩,
+  ⟨"F03g", "ValueError", "helpers.py:get_double", ["floor", "ceiling", "untypedAtomic"], 0⟩,
   ⟨"F03g", "ValueError", "namespaces.py:get_expanded_name", ["instance", "castable", "cast", "treat"], 0⟩,
-  ⟨"F03g", "TypeError", "xpath2/_xpath2_functions.py:select__subsequence", ["subsequence"], 0⟩,
-  -- F03k: a function item, map or array is passed where an atomic value or a node is expected; the
-  -- site is the `evaluate__…` method of whichever function received it
-  ⟨"F03k", "TypeError", ":evaluate__*", fnItemSyms, 0⟩,
-  ⟨"F03k", "AttributeError", ":evaluate__*", fnItemSyms, 0⟩,
-  ⟨"F03k", "TypeError", ":select__*", fnItemSyms, 0⟩,
-  ⟨"F03k", "AttributeError", ":select__*", fnItemSyms, 0⟩,
-  ⟨"F03k", "AttributeError", "xpath_tokens/base.py:adjust_datetime", fnItemSyms, 0⟩,
-  ⟨"F03k", "TypeError", "regex/patterns.py:translate_pattern", fnItemSyms, 0⟩,
   -- F03h: numeric / temporal overflow and runaway computations are not caught
   ⟨"F03h", "OverflowError", "xpath2/_xpath2_operators.py:evaluate__range_expression", ["to"], 0⟩,
-  ⟨"F03h", "MemoryError", "xpath2/_xpath2_operators.py:evaluate__range_expression", ["to"], 0⟩,
-  ⟨"F03h", "Hang", "xpath2/_xpath2_operators.py:evaluate__range_expression", ["to"], 0⟩,
-  ⟨"F03h", "Hang", "worker", ["to", "exp10", "pow"], 0⟩,
-  ⟨"F03h", "Hang", "xpath30/_xpath30_functions.py:evaluate__round", ["round"], 0⟩,
-  ⟨"F03h", "MemoryError", "xpath30/_xpath30_functions.py:evaluate__round", ["round"], 0⟩,
-  ⟨"F03h", "Hang", "xpath2/_xpath2_functions.py:evaluate__round_half_to_even", ["round-half-to-even"], 0⟩,
-  ⟨"F03h", "MemoryError", "xpath2/_xpath2_functions.py:evaluate__round_half_to_even", ["round-half-to-even"], 0⟩,
   ⟨"F03h", "OverflowError", "xpath30/_xpath30_functions.py:evaluate__exp", ["exp"], 0⟩,
   ⟨"F03h", "OverflowError", "xpath30/_xpath30_functions.py:evaluate__pow", ["pow"], 0⟩,
-  ⟨"F03h", "OverflowError", "xpath30/_xpath30_functions.py:evaluate__exp10", ["exp10"], 0⟩,
-  ⟨"F03h", "Hang", "xpath30/_xpath30_functions.py:evaluate__pow", ["pow"], 0⟩,
-  ⟨"F03h", "MemoryError", "xpath30/_xpath30_functions.py:evaluate__pow", ["pow"], 0⟩,
   ⟨"F03h", "Hang", "xpath30/_xpath30_functions.py:evaluate__exp10", ["exp10"], 0⟩,
-  ⟨"F03h", "MemoryError", "xpath30/_xpath30_functions.py:evaluate__exp10", ["exp10"], 0⟩,
-  ⟨"F03h", "InvalidOperation", "datatypes/datetime.py:__mul__", durTypes ++ ["implicit-timezone"], 0⟩,
+  ⟨"F03h", "InvalidOperation", "datatypes/datetime.py:__mul__", ["implicit-timezone"], 0⟩,
   ⟨"F03h", "InvalidOperation", "xpath2/_xpath2_functions.py:evaluate__avg", ["avg"], 0⟩,
   ⟨"F03h", "InvalidOperation", "xpath30/_xpath30_functions.py:evaluate__pow", ["pow"], 0⟩,
   ⟨"F03h", "Overflow", "xpath30/_xpath30_functions.py:evaluate__pow", ["pow"], 0⟩,
   ⟨"F03h", "OverflowError", "xpath30/xpath30_helpers.py:roman_num", ["format-integer"], 0⟩,
   ⟨"F03h", "MemoryError", "xpath30/xpath30_helpers.py:roman_num", ["format-integer"], 0⟩,
-  ⟨"F03h", "OverflowError", "datatypes/datetime.py:_compare_durations", durTypes, 0⟩,
-  ⟨"F03h", "OverflowError", "datatypes/datetime.py:fromduration", durTypes, 0⟩,
+  ⟨"F03h", "OverflowError", "datatypes/datetime.py:fromduration", ["dayTimeDuration"], 0⟩,
   -- F03i: a URI argument is handed to urllib without validation
   ⟨"F03i", "InvalidURL", "xpath30/_xpath30_functions.py:evaluate__unparsed_text", ["unparsed-text", "unparsed-text-lines"], 0⟩,
   ⟨"F03i", "InvalidURL", "xpath30/_xpath30_functions.py:evaluate__unparsed_text_available", ["unparsed-text-available"], 0⟩,
@@ -127,10 +71,18 @@ def siteMatch (pat site : String) : Bool :=
   (pat.startsWith ":" && pat.endsWith "*" &&
     (((site.splitOn ":").getD 1 "").startsWith ((pat.drop 1).toString.dropEnd 1).toString))
 
+def rowMatches (r : Row) (cls site : String) (syms : List String) (ntoks : Nat) : Bool :=
+  r.cls == cls && siteMatch r.site site &&
+  (r.anySym.isEmpty || r.anySym.any syms.contains) && decide (r.minToks ≤ ntoks)
+
+/-- index of the first row whose trigger predicate holds for this escape, if any.  The harness accepts
+the row only if the row's own witness (findings/C03.json) still escapes in the same run: a row whose
+defect has been repaired cannot tag anything. -/
+def triggerIdx (cls site : String) (syms : List String) (ntoks : Nat) : Option Nat :=
+  rows.findIdx? fun r => rowMatches r cls site syms ntoks
+
 /-- the finding whose trigger predicate holds for this escape, if any -/
 def trigger (cls site : String) (syms : List String) (ntoks : Nat) : Option String :=
-  (rows.find? fun r =>
-    r.cls == cls && siteMatch r.site site &&
-    (r.anySym.isEmpty || r.anySym.any syms.contains) && decide (r.minToks ≤ ntoks)).map (·.id)
+  (rows.find? fun r => rowMatches r cls site syms ntoks).map (·.id)
 
 end EPV.C03Esc
